@@ -89,6 +89,9 @@ extern const Harness g_harness;
 // Name the API call about to be made, so that a crash (signal) inside it is
 // reported with this site instead of the generic "signal" (nullptr resets).
 void set_crash_site(const char* site);
+// Attribute every violation raised by the calling thread until cleared (nullptr, nullptr)
+// to one listed, unrepaired defect: reported as cls/site, original classification in the message.
+void fail_context(const char* cls, const char* site);
 // Count a "rare condition reached" probe.
 void probe(const char* name, uint64_t n = 1);
 // Count an injected fault that actually fired.
